@@ -55,21 +55,21 @@ theorem mp (p : Pos) :
 
 theorem materialTerm_mirror (p : Pos) : materialTerm (mirrorPos p) = -materialTerm p := by
   obtain ⟨a0, a1, a2, a3, a4, a5, b0, b1, b2, b3, b4, b5⟩ := mp p
-  unfold materialTerm
-  rw [a0, a1, a2, a3, a4, b0, b1, b2, b3, b4]
+  unfold materialTerm matSide sideSum
+  rw [a0, a1, a2, a3, a4, a5, b0, b1, b2, b3, b4, b5]
   simp only [pc_flipV]
   omega
 
 theorem pairsTerm_mirror (p : Pos) : pairsTerm (mirrorPos p) = -pairsTerm p := by
   obtain ⟨a0, a1, a2, a3, a4, a5, b0, b1, b2, b3, b4, b5⟩ := mp p
-  unfold pairsTerm
+  unfold pairsTerm pairD
   rw [a1, a2, a3, b1, b2, b3]
   simp only [popcount_flipV]
   omega
 
 theorem adjTerm_mirror (p : Pos) : adjTerm (mirrorPos p) = -adjTerm p := by
   obtain ⟨a0, a1, a2, a3, a4, a5, b0, b1, b2, b3, b4, b5⟩ := mp p
-  unfold adjTerm
+  unfold adjTerm adjSide
   rw [a0, a1, a3, b0, b1, b3]
   simp only [pc_flipV, popcount_flipV]
   omega
@@ -170,30 +170,22 @@ theorem pc_flipV_and_rank (b : BB) (i j : Nat) (hij : i + j = 5) :
   rw [this] at h
   rw [← h, ← flipV_and, pc_flipV]
 
-theorem rankedPawnEval_flipV_3 (w b : BB) : rankedPawnEval 3 (flipV b) (flipV w) = -rankedPawnEval 3 w b := by
-  unfold rankedPawnEval
-  rw [range6]
-  simp only [List.foldl_cons, List.foldl_nil]
+theorem rankSum_flipV (w b : BB) : rankSum (flipV b) (flipV w) = -rankSum w b := by
+  unfold rankSum rankTerm
   rw [pc_flipV_and_rank b 0 5 rfl, pc_flipV_and_rank b 1 4 rfl, pc_flipV_and_rank b 2 3 rfl,
     pc_flipV_and_rank b 3 2 rfl, pc_flipV_and_rank b 4 1 rfl, pc_flipV_and_rank b 5 0 rfl,
     pc_flipV_and_rank w 0 5 rfl, pc_flipV_and_rank w 1 4 rfl, pc_flipV_and_rank w 2 3 rfl,
     pc_flipV_and_rank w 3 2 rfl, pc_flipV_and_rank w 4 1 rfl, pc_flipV_and_rank w 5 0 rfl]
   omega
 
-theorem rankedPawnEval_flipV_5 (w b : BB) : rankedPawnEval 5 (flipV b) (flipV w) = -rankedPawnEval 5 w b := by
-  unfold rankedPawnEval
-  rw [range6]
-  simp only [List.foldl_cons, List.foldl_nil]
-  rw [pc_flipV_and_rank b 0 5 rfl, pc_flipV_and_rank b 1 4 rfl, pc_flipV_and_rank b 2 3 rfl,
-    pc_flipV_and_rank b 3 2 rfl, pc_flipV_and_rank b 4 1 rfl, pc_flipV_and_rank b 5 0 rfl,
-    pc_flipV_and_rank w 0 5 rfl, pc_flipV_and_rank w 1 4 rfl, pc_flipV_and_rank w 2 3 rfl,
-    pc_flipV_and_rank w 3 2 rfl, pc_flipV_and_rank w 4 1 rfl, pc_flipV_and_rank w 5 0 rfl]
-  omega
+/-- for every scalar -/
+theorem rankedPawnEval_flipV (s : Int) (w b : BB) : rankedPawnEval s (flipV b) (flipV w) = -rankedPawnEval s w b := by
+  rw [rankedPawnEval_eq, rankedPawnEval_eq, rankSum_flipV, Int.mul_neg]
 
 theorem pawnRanked_mirror (p : Pos) : pawnRanked (mirrorPos p) = -pawnRanked p := by
   unfold pawnRanked
   rw [(mp p).1, (mp p).2.2.2.2.2.2.1, supportedPawns0_flipV, supportedPawns1_flipV, passed0_flipV, passed1_flipV,
-    rankedPawnEval_flipV_3, rankedPawnEval_flipV_5]
+    rankedPawnEval_flipV, rankedPawnEval_flipV]
   omega
 
 /-! ### the accumulator-level statements: every term changes sign -/
@@ -213,6 +205,7 @@ theorem evalPawns_mirror (p : Pos) (e : EvalAcc) : evalPawns (mirrorPos p) e.neg
   rw [evalPawns_eq, evalPawns_eq, isoDiff_mirror, pawnRanked_mirror]
   unfold EvalAcc.neg
   dsimp only
+  rw [Int.mul_neg, Int.mul_neg]
   congr 1 <;> omega
 
 theorem evalPairs_mirror (p : Pos) (e : EvalAcc) : evalPairs (mirrorPos p) e.neg = (evalPairs p e).neg := by
